@@ -33,16 +33,18 @@ def run(ctx):
 
     OPTS = {"show_progress": False}
 
-    def solve(entry, pr, rng, sparse=False, kkt=None, start="none", opts=None, backend=None, operators=False, mixed=None):
+    def solve(entry, pr, rng, sparse=False, kkt=None, start="none", opts=None, backend=None, operators=False, mixed=None, junk=False):
         isqp = pr.P is not None
         sG, sA, sP = mixed if mixed is not None else (sparse, sparse, sparse)
+        if junk:
+            ctx.count("junk-upper-triangles")
         if entry in ("conelp", "coneqp"):
-            args = sr.cvx_args(pr, rng, sparseG=sG, sparseA=sA, sparseP=sP)
+            args = sr.cvx_args(pr, rng, sparseG=sG, sparseA=sA, sparseP=sP, junk=junk)
         else:
             if isqp:
-                args = sr.cvx_args(pr, rng, sparseG=sG, sparseA=sA, sparseP=sP)
+                args = sr.cvx_args(pr, rng, sparseG=sG, sparseA=sA, sparseP=sP, junk=junk)
             else:
-                args = sr.wrapper_args(entry, pr, rng, sparse=sparse)
+                args = sr.wrapper_args(entry, pr, rng, sparse=sparse, junk=junk)
         ps = ds = None
         if start != "none":
             ps, ds, _, _ = sr.start_dicts(entry, pr, start, rng)
@@ -288,7 +290,7 @@ def run(ctx):
             combos = [(True, True, True), (True, False, True), (False, True, False), (True, False, False), (True, True, False), (False, False, True)]
             mx = combos[rng.randrange(len(combos))]
             name = "storage:G%sA%sP%s" % tuple("s" if b_ else "d" for b_ in mx)
-            solB, excB = solve(entry, pr, rng, mixed=mx)
+            solB, excB = solve(entry, pr, rng, mixed=mx, junk=(isqp or bool(d.s)) and rng.random() < 0.3)
         elif t == "kktsolver":
             names = (["ldl", "ldl2", "chol"] + ([] if isqp else ["qr"]) + ([] if (d.q or d.s) else ["chol2"]))
             nm = rng.choice(names); name = "kktsolver:" + nm
@@ -319,7 +321,10 @@ def run(ctx):
                     spB = True
                     solA, excA = solve(entry, pr, rng)
                     ctx.count("kktsolver.zero-pattern-sparse-G")
-            solB, excB = solve(entry, pr, rng, kkt=nm, mixed=(True, rng.random() < 0.5, False) if spB else None)
+            # the transformed run also stores P and the 's' blocks of G, h in 'L' storage with zeros or unrelated numbers in
+            # the unreferenced triangles (a presentation, too)
+            solB, excB = solve(entry, pr, rng, kkt=nm, mixed=(True, rng.random() < 0.5, False) if spB else None,
+                               junk=(not spB) and (isqp or bool(d.s)) and rng.random() < 0.5)
         elif t == "wrapper":
             name = "wrapper:" + w
             solB, excB = solve(w, pr, rng, sparse=rng.random() < 0.3)
